@@ -32,9 +32,10 @@ def Position.inConstraint : Position → Bool
   | .consLit | .consCondLit | .consCondCond | .consAggCond | .negHead | .negHeadBody | .telCondCons => true
   | _ => false
 
-/-- a position whose atom is derived: positive head literal, disjunction / choice / head-aggregate element -/
+/-- a position whose atom is introduced: positive head literal, disjunction / choice / head-aggregate element, the atom of an
+    `#external` statement -/
 def Position.isPositiveHead : Position → Bool
-  | .normalHead | .disjElem | .choiceElem | .headAggElem => true
+  | .normalHead | .disjElem | .choiceElem | .headAggElem | .external => true
   | _ => false
 
 
